@@ -2,8 +2,7 @@
 
 package file
 
-import (
-)
+import ()
 
 // Verification hooks for property C05 (see /verif). Not compiled without the "verif" build tag.
 
